@@ -89,6 +89,23 @@ def identities(ck, c):
                     if len(back_) != len(P) or any(not (abs(complex(g_) - complex(e_)) <= tol_ * 8) for g_, e_ in zip(back_, P)):
                         bad('polynomial2bezier(%s coefficients)' % spell, P, back_)
                         break
+            # genuinely complex control points (real part P, imaginary part P reversed): every helper is linear over the reals, so the answer is the real answer
+            # plus i times the answer for the reversed vector - for every degree, the general-degree branches included
+            if n >= 1:
+                pc = [complex(P[k], P[n - k]) for k in range(n + 1)]
+                tol_ = 1e-12 * (max(abs(x) for x in P) + 1) * 4 ** n
+                for cont_name, cont in (('list', list), ('tuple', tuple), ('array', numpy.array)):
+                    cr = [complex(float(F(e_))) for e_ in bz.bezier2polynomial([F(x) for x in P])]
+                    ci = [complex(float(F(e_))) for e_ in bz.bezier2polynomial([F(x) for x in P[::-1]])]
+                    got_c = list(bz.bezier2polynomial(cont(pc)))
+                    if len(got_c) != n + 1 or any(not (abs(complex(g_) - (r_ + 1j * i_)) <= tol_) for g_, r_, i_ in zip(got_c, cr, ci)):
+                        bad('bezier2polynomial(complex control points, %s)' % cont_name, [r_ + 1j * i_ for r_, i_ in zip(cr, ci)], got_c)
+                        break
+                    gp = bz.bezier_point(cont(pc), float(t))
+                    ep = complex(float(bz.bezier_point([F(x) for x in P], t)), float(bz.bezier_point([F(x) for x in P[::-1]], t)))
+                    if not (abs(complex(gp) - ep) <= tol_):
+                        bad('bezier_point(complex control points, %s)' % cont_name, ep, gp)
+                        break
     except Exception as e:      # noqa
         bad('raises-' + type(e).__name__, 'a value', repr(e))
 
@@ -259,6 +276,41 @@ def real_polynomials(ck, rnd, n):
                         observed=traces[i][0]['out'], driver='roots-trace')
 
 
+def end_roots_and_dtypes(ck):
+    """simple roots exactly on the ends of [0, 1] whose partners lie in the left / right half-plane (all non-constant coefficients of one sign), and the
+    same real polynomials handed over as complex arrays, poly1d objects and integer lists: the admissible simple roots come back once each"""
+    site = 'svgpathtools/polytools.py:polyroots / polyroots01'
+    fams = [([1.0], 'end'), ([1.0, -2.0, -3.0], 'end'), ([1.0, complex(-2, 3), complex(-2, -3)], 'end'), ([0.0, 2.0, 3.0], 'end'), ([0.0, -1.5], 'end'),
+            ([0.0, 1.0, -2.0], 'end'), ([1.0, -0.5, -4.0, complex(-1, 1), complex(-1, -1)], 'end'),
+            ([0.25, 0.5, 0.75, complex(-1, 2), complex(-1, -2)], 'in'), ([0.125, 0.625, complex(0.5, 0.5), complex(0.5, -0.5)], 'in'), ([0.5, 3.0, -2.0], 'in')]
+    for rts, kind in fams:
+        want = sorted(r.real for r in rts if abs(complex(r).imag) == 0 and 0 <= complex(r).real <= 1)
+        base = numpy.real(numpy.poly(rts))
+        for lead in (1.0, -3.0, 0.5):
+            co = base * lead
+            spellings = [('float array', co), ('list', [float(v) for v in co]), ('complex array', numpy.array(co, dtype=complex)), ('poly1d', numpy.poly1d(co))]
+            if all(float(v).is_integer() for v in co):
+                spellings.append(('int list', [int(v) for v in co]))
+            for how, arg in spellings:
+                ck.case(fp=('end-roots', str(rts), lead, how), nontrivial=True)
+                try:
+                    out = sorted(float(numpy.real(v)) for v in pt.polyroots01(arg))
+                    out2 = sorted(float(numpy.real(v)) for v in pt.polyroots(arg, realroots=True, condition=lambda r: 0 <= r <= 1))
+                except Exception as e:      # noqa
+                    out = out2 = e
+                for nm, o in (('polyroots01', out), ('polyroots', out2)):
+                    # numpy may return an end root as 1 + 2e-16 / -1e-17 (outside the closed interval by rounding): an end root may then be dropped by the
+                    # condition itself - only exactly representable cases are demanded: degree-1 factors with the root computed exactly (t - 1, t)
+                    exact_end = kind == 'end' and len(rts) == 1
+                    need = want if (kind == 'in' or exact_end) else [w for w in want if 0 < w < 1]
+                    ok = not isinstance(o, Exception) and all(sum(1 for v in o if abs(v - w) <= 1e-6) == 1 for w in need) and all(any(abs(v - w) <= 1e-6 for w in want) for v in o)
+                    if not ok:
+                        ck.disagree(key='polyroots/%s-roots-%s' % (kind, how.replace(' ', '-')), site=site,
+                                    what='%s(%s as %s) = %r; roots %s, admissible %s' % (nm, list(co), how, o, rts, want), case={'roots': [str(r) for r in rts], 'how': how, 'lead': lead},
+                                    expected=want, observed=repr(o), driver='end-roots')
+                        break
+
+
 def ratlimit(ck, c, sf=1.0, sg=1.0):
     """sf, sg: exact (power of two) factors on numerator / denominator: zeros, orders of vanishing and the existence of the limit do not depend on the unit"""
     f, g, t0 = [v * sf for v in c['f']], [v * sg for v in c['g']], c['t0']
@@ -314,6 +366,7 @@ def run(ck):
     ck.tlc('RatLimit', 'SPECIFICATION Spec\nCONSTANTS CoefSet <- Coefs\n MaxLen = 3\n T0Set <- T0s\nINVARIANT Dump\n', workers=1, coverage=False,
            on_case=lambda c: (ratlimit(ck, c), ratlimit(ck, c, 2.0 ** -40, 2.0 ** -40), ratlimit(ck, c, 1.0, 2.0 ** -36), ratlimit(ck, c, 2.0 ** 30, 2.0 ** -20)))
     real_polynomials(ck, rnd, 300 if quick else 3000)
+    end_roots_and_dtypes(ck)
 
 
 def replay(rec):
